@@ -187,8 +187,6 @@ Lemma sim_for_iterations pat body eb n : forall s o aw vaw E EB, RS s o -> Rws s
   sim s o (for_iterations pA sA pat body eb n aw E) (for_iterations pB sB pat body eb n vaw EB) (fun s' r v => RE s' r v).
 Proof.
   induction n as [|n IH]; intros s o aw vaw E EB HS Ha HE; cbn [for_iterations]; [apply sim_ret; assumption|].
-  destruct Ha as [|a va aw vaw Ha0 Har]; [apply sim_ret; assumption|].
-  assert (Hfull : Rws s (a :: aw) (va :: vaw)) by (constructor; assumption).
   sbindn sim_slice as binding vbinding Hbinding.
   eapply sim_bind; [eapply Hp; eauto; apply rel_env_push; assumption|].
   snext as p q HR. destruct p as [im Ea], q as [vim EBa]. unfold RresP in HR. cbn [fst snd] in HR. destruct HR as [Him HEa].
@@ -416,7 +414,7 @@ Proof.
     snext as E3 EB3 HE3. apply sim_ret; [assumption|]. split; [constructor|assumption].
   - (* for *)
     eapply sim_bind; [apply sim_pure_eq; assumption|]. snext as pa pb Hpq. subst pb. destruct pa as [eb num].
-    scall He as aw E1 vaw EB1 Haw HE1. rewrite (Rws_length _ _ _ _ Haw).
+    scall He as aw E1 vaw EB1 Haw HE1.
     sbindn sim_for_iterations as E2 EB2 HE2. apply sim_ret; [assumption|]. split; [constructor|assumption].
   - (* join loop *)
     eapply sim_bind; [apply sim_pure_eq; assumption|]. snext as pa pb Hpq. subst pb. destruct pa as [eba na].
